@@ -24,6 +24,7 @@ REPO = os.environ.get("VERIF_REPO", "/repo")
 PROPS = {
     "C02": "sim.props.c02",
     "C08": "sim.props.c08",
+    "C18": "sim.props.c18",
 }
 
 # runs per tier are fixed numbers (so coverage does not depend on machine
